@@ -663,6 +663,28 @@ def extract_selector(errors):
 
     guard(eval_shape)
 
+    def name_fallback():
+        # C09: the Name branch of _eval. A name that is not in self.data falls back to
+        # getattr(dynamic_fieldtype, node.id); is a prefix test on node.id raised *before* that getattr?
+        fn = find_def(tree, "_eval", cls="RecordContextMatcher")
+        chain = [st for st in fn.body if isinstance(st, ast.If)]
+        body = None
+        for test, b in if_chain(chain[0]):
+            if test is not None and src(test) == "isinstance(node, ast.Name)":
+                body = b
+        if body is None:
+            raise ExtractError("_eval: Name branch not found")
+        text = "\n".join(src(s) for s in body)
+        if "getattr(dynamic_fieldtype, node.id)" not in text:
+            raise ExtractError("_eval: Name branch no longer falls back to getattr(dynamic_fieldtype, node.id)")
+        m = re.search(r"node\.id\.startswith\('(_+)'\)", text)
+        refuses = bool(m) and "raise InvalidOperation" in text and \
+            text.index("startswith") < text.index("raise InvalidOperation") < text.index("getattr(dynamic_fieldtype")
+        L.append(f"def nameFallbackRefusesDunder : Bool := {lbool(refuses)}")
+        L.append(f"def nameRefusedPrefix : String := {lstr(m.group(1) if refuses else '')}")
+
+    guard(name_fallback)
+
     L += ["", "end FlowRecord.Gen", ""]
     return "Selector", "\n".join(L)
 
